@@ -508,6 +508,12 @@ fn pop_frame_one_data(eos: bool) {
 /// `sendable_only`: restrict to pre-states in which the frame can be (partly) sent now,
 /// i.e. no path puts it back (Deque::push_front is an unreachability stub in that query).
 fn pop_frame_one_data_regime(eos: bool, sendable_only: bool) {
+    pop_frame_one_data_full(eos, sendable_only, false)
+}
+/// `ghost`: the stream's deque is the ghost of buffer.rs (stub set `ghost_deque_one_data`): no slab
+/// traffic is encoded, which brings the query from 36 min / 46 GB down to the quick tier, and the
+/// whole regime (sendable and blocked) is decided in one query.
+fn pop_frame_one_data_full(eos: bool, sendable_only: bool, ghost: bool) {
     // eos => the send half was closed when the frame was queued (HalfClosedLocal)
     let mut w = world(if eos { 4 } else { 3 });
     {
@@ -522,9 +528,17 @@ fn pop_frame_one_data_regime(eos: bool, sendable_only: bool) {
     kani::assume(off <= (1usize << 40));
     {
         let mut p = w.store.resolve(w.key);
-        let mut frame = frame::Data::new(StreamId::from(ID), SymBuf { off, rem: sz });
-        frame.set_end_stream(eos);
-        p.pending_send.push_back(&mut w.buffer, frame.into());
+        if ghost {
+            unsafe {
+                buf_h::G_DATA = (off, sz, eos);
+                buf_h::G_FRONT_PUTS = 0;
+            }
+            p.pending_send = buf_h::fake_nonempty();
+        } else {
+            let mut frame = frame::Data::new(StreamId::from(ID), SymBuf { off, rem: sz });
+            frame.set_end_stream(eos);
+            p.pending_send.push_back(&mut w.buffer, frame.into());
+        }
         // scheduled (without `Queue::push`: re-scheduling is an unreachability stub here)
         p.is_pending_send = true;
         store_h::queue_set_single(&mut w.prio.pending_send, w.key);
@@ -563,6 +577,9 @@ fn pop_frame_one_data_regime(eos: bool, sendable_only: bool) {
             assert!(q.buffered == sz - n && q.req == pre.req - n as u32, "S3: buffered/requested not reduced by n");
             assert_inv(&pre, &q);
             assert!(!in_flight_is_drop(&w.prio));
+            if ghost {
+                assert!(unsafe { buf_h::G_FRONT_PUTS } == 0, "emitted frame also put back (bytes duplicated)");
+            }
         }
         Some(_) => panic!("pop_frame produced a frame kind that was never queued"),
         None => {
@@ -571,6 +588,9 @@ fn pop_frame_one_data_regime(eos: bool, sendable_only: bool) {
             assert!(q.w == pre.w && q.cw == pre.cw && q.a == pre.a && q.buffered == pre.buffered, "state changed without emitting");
             let p = w.store.resolve(w.key);
             assert!(!p.pending_send.is_empty(), "blocked DATA frame lost");
+            if ghost {
+                assert!(unsafe { buf_h::G_FRONT_PUTS } == 1, "C01.order: blocked DATA frame not put back exactly once at the front");
+            }
         }
     }
     kani::cover!(matches!(&out, Some(Frame::Data(d)) if d.payload().remaining() < sz), "split");
@@ -584,6 +604,8 @@ pub fn c02_emit_pop_frame_data() { pop_frame_one_data(false) }
 pub fn c02_emit_pop_frame_data_sendable() { pop_frame_one_data_regime(false, true) }
 pub fn c02_emit_pop_frame_data_eos_sendable() { pop_frame_one_data_regime(true, true) }
 pub fn c02_emit_pop_frame_data_eos() { pop_frame_one_data(true) }
+pub fn c02_emit_pop_frame_data_ghost() { pop_frame_one_data_full(false, false, true) }
+pub fn c02_emit_pop_frame_data_eos_ghost() { pop_frame_one_data_full(true, false, true) }
 
 // ---------------------------------------------------------------------------
 // reclaim_frame_inner / push_back_frame (C01.reclaim, C20.window)
@@ -1018,3 +1040,46 @@ fn pop_frame_scheduled_reset(with_frame: bool) {
 }
 pub fn c05_pop_frame_scheduled_reset_emits_rst() { pop_frame_scheduled_reset(false) }
 pub fn c05_pop_frame_scheduled_reset_frame_first() { pop_frame_scheduled_reset(true) }
+
+/// pop_frame, *blocked* regime (C01.order): the stream was scheduled but holds no
+/// capacity any more (window exhausted / shrunk since it was scheduled) and a non-empty
+/// DATA frame is at the head of its queue.  Nothing is emitted, no ledger moves, and the
+/// frame goes back - unchanged - to the FRONT of the stream's queue, exactly once.
+/// The stream's deque is a ghost (see buffer.rs `stub_pop_front_one_data_frame`).
+fn pop_frame_blocked_puts_back(eos: bool) {
+    let mut w = world(if eos { 4 } else { 3 });
+    let sz: usize = kani::any();
+    kani::assume(sz >= 1 && sz as u64 <= MAXW as u64);
+    let off: usize = kani::any();
+    kani::assume(off <= (1usize << 40));
+    unsafe {
+        buf_h::G_DATA = (off, sz, eos);
+        buf_h::G_FRONT_PUTS = 0;
+    }
+    {
+        let mut p = w.store.resolve(w.key);
+        if !eos {
+            st_h::set_inner_open_streaming(&mut p.state);
+        }
+        p.pending_send = buf_h::fake_nonempty();
+        p.is_pending_send = true;
+        store_h::queue_set_single(&mut w.prio.pending_send, w.key);
+    }
+    let pre = sym_pre(&mut w, Some(sz));
+    kani::assume(pre.a == 0);
+    let max_len: usize = kani::any();
+    kani::assume(max_len >= 16_384 && max_len < (1 << 24));
+    let out = w.prio.pop_frame(&mut w.buffer, &mut w.store, max_len, &mut w.counts);
+    assert!(out.is_none(), "C02: DATA emitted without any assigned capacity");
+    assert!(unsafe { buf_h::G_FRONT_PUTS } == 1, "C01.order: blocked DATA frame not put back (lost) or put back twice");
+    let q = post(&mut w);
+    assert!(q.w == pre.w && q.cw == pre.cw && q.a == 0 && q.ca == pre.ca && q.buffered == pre.buffered && q.req == pre.req,
+        "ledgers moved although nothing was emitted");
+    let p = w.store.resolve(w.key);
+    assert!(!p.pending_send.is_empty());
+    kani::cover!(true, "end");
+    std::mem::forget(out);
+    forget(w);
+}
+pub fn c01_pop_frame_blocked_puts_back_front() { pop_frame_blocked_puts_back(false) }
+pub fn c01_pop_frame_blocked_puts_back_front_eos() { pop_frame_blocked_puts_back(true) }
